@@ -119,6 +119,7 @@ Proof.
   destruct d as [|vs|s fs k|s ms|fs]; cbn [def_ok defb]; intros H; try reflexivity.
   - apply andb_true_iff in H. destruct H as [_ H]. rewrite forallb_forall in *. intros f Hin. specialize (H f Hin).
     apply andb_true_iff in H. destruct H as [H H3]. apply andb_true_iff in H. destruct H as [H1 _].
+    unfold out_ref_ok in H1. apply andb_true_iff in H1. destruct H1 as [H1 _].
     unfold fieldb. apply andb_true_iff. split; [exact (ref_ok_refb _ _ H1)|].
     apply forallb_forall. intros a Ha. rewrite forallb_forall in H3. exact (ref_ok_refb _ _ (H3 a Ha)).
   - apply andb_true_iff in H. destruct H as [_ H]. rewrite forallb_forall in *. intros a Ha. exact (ref_ok_refb _ _ (H a Ha)).
@@ -249,4 +250,43 @@ Proof.
   - apply (proj2 (erase_norm_def_none d)) in E2. congruence.
   - apply (proj1 (erase_norm_def_none d)) in E1. congruence.
   - exact I.
+Qed.
+
+(** * A well-formed built schema is closed in the sense validation needs: field types and union members
+    are defined output types, union members are objects. *)
+Lemma erase_def_some_not_input d d' : erase_def d = Some d' -> match d with XInput _ => False | _ => True end.
+Proof. destruct d; cbn; intros H; try exact I; discriminate. Qed.
+
+Lemma lookup_erase_object x n s fs k : NoDup (map fst x) -> lookup n x = Some (XObject s fs k) ->
+  lookup n (erase x) = Some (DObject (map (fun f => (fst f, fst (snd f))) fs) k).
+Proof. intros Hnd Hl. rewrite lookup_erase by exact Hnd. rewrite Hl. reflexivity. Qed.
+
+Lemma xwf_erase_closed x : xwf x = true ->
+  (forall tn fs k f ft, lookup tn (erase x) = Some (DObject fs k) -> lookup f fs = Some ft -> lookup (named_of ft) (erase x) <> None) /\
+  (forall tn ms m, lookup tn (erase x) = Some (DUnion ms) -> In m ms -> exists fs k, lookup m (erase x) = Some (DObject fs k)).
+Proof.
+  intros Hwf. pose proof (xwf_names x Hwf) as Hnd. split.
+  - intros tn fs k f ft Hl Hf. rewrite lookup_erase in Hl by exact Hnd.
+    destruct (lookup tn x) as [d|] eqn:El; [|discriminate].
+    destruct d as [|vs|s xfs xk|s ms|ifs]; cbn [erase_def] in Hl; try discriminate. inversion Hl; subst. clear Hl.
+    change (map (fun f0 : string * (tref * xargs) => (fst f0, fst (snd f0))) xfs)
+      with (map (fun e : string * (tref * xargs) => (fst e, (fun v : tref * xargs => fst v) (snd e))) xfs) in Hf.
+    rewrite lookup_map_snd in Hf. destruct (lookup f xfs) as [[t args]|] eqn:Ef; [|discriminate].
+    cbn in Hf. inversion Hf; subst. clear Hf.
+    apply lookup_in' in Ef. apply lookup_in' in El.
+    pose proof (xwf_def x tn _ Hwf El) as Hd. cbn [def_ok] in Hd.
+    apply andb_true_iff in Hd. destruct Hd as [_ Hd]. rewrite forallb_forall in Hd. specialize (Hd _ Ef). cbn [fst snd] in Hd.
+    apply andb_true_iff in Hd. destruct Hd as [Hd _]. apply andb_true_iff in Hd. destruct Hd as [Hd _].
+    unfold out_ref_ok, ref_ok in Hd. apply andb_true_iff in Hd. destruct Hd as [Hd1 Hd2].
+    apply andb_true_iff in Hd1. destruct Hd1 as [_ Hd1].
+    rewrite lookup_erase by exact Hnd.
+    destruct (lookup (named_of ft) x) as [d|]; [|discriminate].
+    destruct d; cbn [erase_def]; try discriminate.
+  - intros tn ms m Hl Hin. rewrite lookup_erase in Hl by exact Hnd.
+    destruct (lookup tn x) as [d|] eqn:El; [|discriminate].
+    destruct d as [|vs|s xfs xk|s xms|ifs]; cbn [erase_def] in Hl; try discriminate. inversion Hl; subst. clear Hl.
+    apply lookup_in' in El. pose proof (xwf_def x tn _ Hwf El) as Hd. cbn [def_ok] in Hd.
+    apply andb_true_iff in Hd. destruct Hd as [_ Hd]. rewrite forallb_forall in Hd. specialize (Hd m Hin).
+    destruct (lookup m x) as [[| |s' fs' k'| |]|] eqn:Em; try discriminate.
+    eexists. eexists. apply (lookup_erase_object x m s' fs' k' Hnd Em).
 Qed.
